@@ -29,7 +29,10 @@ CaseOf(st) ==
       imps == [k \in 1..nimp |-> Shared(st, 10 * k, <<115 + k>>)]
   IN IF R(st, 2) % 2 = 0
      THEN [mode |-> "shared", imports |-> IF imps = <<>> THEN <<Shared(st, 10, <<116>>)>> ELSE imps, locals |-> <<>>,
-           forest |-> Forest(st, 60)]
-     ELSE [mode |-> "fixed", imports |-> imps, locals |-> RandSyms(st, 40), forest |-> Forest(st, 60)]
+           forest |-> Forest(st, 60),
+           \* the writer is also used for two batches: Finish after the first `split` values (0 = one batch)
+           split |-> IF R(st, 3) % 3 = 0 THEN R(st, 4) % Len(Forest(st, 60)) ELSE 0]
+     ELSE [mode |-> "fixed", imports |-> imps, locals |-> RandSyms(st, 40), forest |-> Forest(st, 60),
+           split |-> IF R(st, 3) % 3 = 0 THEN R(st, 4) % Len(Forest(st, 60)) ELSE 0]
 ASSUME ndJsonSerialize(OutFile, [i \in 1..Len(Streams) |-> CaseOf(Streams[i].s)])
 =============================================================================
